@@ -175,17 +175,18 @@ class Expression:
                 left = right
             return True
 
+        if isinstance(node, ast.Slice):
+            start = self._eval(node.lower, x) if node.lower else None
+            stop = self._eval(node.upper, x) if node.upper else None
+            step = self._eval(node.step, x) if node.step else None
+            return slice(start, stop, step)
+
         if isinstance(node, ast.Subscript):
             seq = self._eval(node.value, x)
             sl = node.slice
             # Python < 3.9 wraps index in ast.Index
             if isinstance(sl, getattr(ast, "Index", ())):
                 sl = sl.value  # type: ignore
-            if isinstance(sl, ast.Slice):
-                start = self._eval(sl.lower, x) if sl.lower else None
-                stop = self._eval(sl.upper, x) if sl.upper else None
-                step = self._eval(sl.step, x) if sl.step else None
-                return seq[slice(start, stop, step)]
             return seq[self._eval(sl, x)]
 
         raise InvalidExpression(f"Unsupported node: {type(node).__name__}")
